@@ -49,6 +49,9 @@ Definition OPC_CFEI : N := 4.
 Definition OPC_CFSI : N := 5.
 Definition OPC_MCP : N := 9.
 Definition OPC_MCPI : N := 10.
+(* organisational ops other than labels and jumps: 11 comment, 12 pusha, 13 popa, 14/15 offset placeholders *)
+Definition OPC_COMMENT : N := 11.
+Definition is_org_stop (opc : N) : bool := andb (N.leb 12 opc) (N.leb opc 15).
 
 (* Constant register numbers (table order of ConstantRegister). *)
 Definition R_ZERO : reg := 0.
@@ -260,6 +263,9 @@ Definition op_eqb (a b : op) : bool :=
   (andb (list_eqb N.eqb (defs a) (defs b))
   (andb (list_eqb N.eqb (cdefs a) (cdefs b))
   (andb (Bool.eqb (se a) (se b)) (kind_eqb (kind a) (kind b))))).
+
+(* the flag registers MOVE/NOOP/ALU ops clear *)
+Definition flagK (r : reg) : Prop := r = R_OF \/ r = R_ERR.
 
 (* ---- deleting instructions (used by Asm/Erase.v) ---- *)
 Fixpoint select {A} (keep : list bool) (l : list A) : list A :=
